@@ -412,6 +412,29 @@ def eval_stmts(stmts, ctx, env, want_value=False):
                 # `let ret = P(s); end_directive(); ret`
                 _, c, o = env[e[1]]
                 return cons + c, o
+            if e[0] == 'if' and e[1][0] == 'iflet' and e[3] is not None:
+                # `if let Some(b) = opt { .. Ok(..) } else { .. }` as the final expression of a lexer: both branches are
+                # evaluated, each with what it knows about the optional fragment; what is KNOWN of the whole (the notes,
+                # e.g. that reserved words are refused) is only what both branches establish
+                _, pat, scrut = e[1]
+                if pat[0] == 'pother' and pat[1][:2] == ['Some', '('] and len(pat[1]) == 4 and scrut[0] == 'var' and scrut[1] in env and env[scrut[1]][0] == 'out':
+                    ov = env[scrut[1]]
+                    n0 = len(ctx.notes)
+                    env_a = dict(env)
+                    env_a[pat[1][2]] = ('out', ov[1])
+                    c1, o1 = eval_stmts(e[2][1], ctx, env_a)
+                    notes_a = ctx.notes[n0:]
+                    del ctx.notes[n0:]
+                    c2, o2 = eval_stmts(e[3][1], ctx, dict(env))
+                    notes_b = ctx.notes[n0:]
+                    del ctx.notes[n0:]
+                    kinds = set(k for k, _ in notes_a) & set(k for k, _ in notes_b)
+                    ctx.notes.extend(n_ for n_ in notes_a if n_[0] in kinds)
+                    opt_atoms = set(flatten(ov[1]))
+                    if [x for x in flatten(o1) if x not in opt_atoms] != flatten(o2):
+                        raise Unsupported('if-let branches disagree beyond the optional part')
+                    return cons + c1, o1
+                raise Unsupported('final if-let of unexpected shape')
             if e[0] == 'if' and e[1][0] != 'iflet' and e[3] is not None:
                 cond = e[1]
                 if cond[0] == 'call' and cond[1] == ('var', 'is_keyword'):
